@@ -791,6 +791,10 @@ def core_guards(cfg):
     cases.append(("cutext", m_cut((-(M + 1)) & 0xFFFFFFFF, u32(1 << 25)), True))
     for L in (3, 4):
         cases.append(("cutext", m_cut((-L) & 0xFFFFFFFF, u32(1 << 25)[:L]), True))
+    for n in (M - 1, M, M + 1, 0xFFFFFFFF, 0):     # Provide: declared (inflated) size at the 1 MiB guard
+        z = zlib.compress(u32(n) + b"t" * min(n, M + 1))
+        body = u32((1 << 28) | 1) + z
+        cases.append(("cutext-provide", m_cut((-len(body)) & 0xFFFFFFFF, body), True))
     for L in (1, 4094, 4095):
         cases.append(("chat", m_chat(L, b"c" * L), False))
     for L in (0, 4096, 4097, 0xFFFFFFFC, 0xFFFFFFFD, 0xFFFFFFFE, 0xFFFFFFFF):
@@ -850,6 +854,13 @@ def core_trunc(cfg):
                 i = s.handshake(via_tight=nm.startswith("t-"))
                 s.tag("core-trunc")
                 s.send(i, m[:k])
+    # SetEncodings resets useNewFBSize: a later scale request is answered at once (the write blocks) unless
+    # the client asked for NewFBSize in its LAST SetEncodings
+    for encs in ([E_RAW], [E_RAW, E_NEWFB], [E_NEWFB, E_RAW]):
+        i = s.handshake()
+        s.send(i, m_setenc([E_RAW, E_NEWFB]) + m_setenc(encs) + (m_setenc([E_HEX]) if encs[0] == E_NEWFB else b""))
+        s.lines.append("stopread %d" % i)
+        s.send(i, m_scale(2))
     for m in (m_fbur(0, 0, 0, cfg["w"], cfg["h"]), m_xvp(2, 1)):
         i = s.handshake()
         s.lines.append("stopread %d" % i)
@@ -1136,6 +1147,64 @@ def core_tight(cfg):
     return s
 
 
+def core_wait(wait):
+    """the two timeout comparisons at their boundaries: a write to a stuck peer gives up after
+    ceil(wait/5000) rounds (4999/5000 -> 1, 5001 -> 2), a read after exactly one wait"""
+    import random
+    rng = random.Random(4011)
+    cfg = dict(CORE_CFGS[0], wait=wait, tight=0, ft=0)
+    s = Script(rng, cfg)
+    i = s.handshake()
+    s.lines.append("stopread %d" % i)
+    s.send(i, m_fbur(0, 0, 0, cfg["w"], cfg["h"]))
+    i = s.handshake()
+    s.lines.append("stopread %d" % i)
+    s.send(i, m_xvp(2, 1))
+    i = s.handshake()
+    s.send(i, m_cut(9, b"abc"))
+    i = s.handshake()
+    s.send(i, m_key(1, 0x41), trickle=max(1, wait - 1))
+    i = s.conn(b"")
+    s.send(i, b"RFB 003.008")
+    s.tick()
+    s.lines.append("end")
+    return s
+
+
+def core_preauth(cfg):
+    """protocol versions, security types and authentication outcomes, one connection each"""
+    import random
+    rng = random.Random(4012)
+    s = Script(rng, dict(cfg))
+    for v in (b"RFB 003.003\n", b"RFB 003.006\n", b"RFB 003.007\n", b"RFB 003.008\n", b"RFB 003.889\n", b"RFB 004.000\n",
+              b"RFB 002.008\n", b"RFB 003.008\r", b"RFB  03.  8\n", b"RFB -03.008\n", b"RFB 003.-08\n", b"RFB 003.00\x00\n",
+              b"RFB 003.\n\n\n\n", b"RFC 003.008\n", b"RFB 003.008"):
+        s.tag("core-version")
+        i = s.conn(v)
+        s.send(i, u8(2 if cfg["pw"] else 1) + u8(1))
+    for minor in (7, 8, 889):
+        for t in (0, 1, 2, 3, 16, 17, 255):
+            s.tag("core-sectype")
+            i = s.conn(b"RFB 003.%03d\n" % minor)
+            s.send(i, u8(t))
+            s.send(i, u8(1) + m_key(1, 0x41))
+    if cfg["pw"]:
+        for minor in (3, 7, 8):
+            for kind in ("ok", "bad", "short"):
+                i = s.conn(b"RFB 003.%03d\n" % minor)
+                if minor >= 7:
+                    s.send(i, u8(2))
+                s.lines.append("auth %d %s" % (i, kind))
+                s.send(i, u8(1) + m_key(1, 0x41))
+        i = s.conn(b"RFB 003.008\n")
+        s.send(i, u8(2) + b"\0" * 16)
+        i = s.conn(b"RFB 003.008\n")
+        s.send(i, u8(2) + b"\0" * 15)
+    s.tick()
+    s.lines.append("end")
+    return s
+
+
 def core_scripts():
     out = []
     for cfg in CORE_CFGS:
@@ -1146,6 +1215,10 @@ def core_scripts():
     out.append(("core_ws", core_ws(CORE_CFGS[0])))
     out.append(("core_ws2", core_ws2(CORE_CFGS[0])))
     out.append(("core_tight", core_tight(CORE_CFGS[0])))
+    for w in (4999, 5000, 5001, 10000, 0):
+        out.append(("core_wait", core_wait(w)))
+    for cfg in CORE_CFGS + [dict(CORE_CFGS[0], pw=1), dict(CORE_CFGS[1], tight=1)]:
+        out.append(("core_preauth", core_preauth(cfg)))
     for cfg in CORE_CFGS:
         out.append(("core_listen", core_listen(cfg)))
     return out
@@ -1237,6 +1310,8 @@ def oracle(script, cfg, impl, solo):
                 return "connection flood: %d connects, %d accepted + %d refused (some neither served nor refused)" % (want, acc, ref)
             if ref == 0 or acc == 0:
                 return "connection flood with the fd limit set for half of %d connects: accepted %d, refused %d (fd quota not enforced)" % (want, acc, ref)
+    if "#leak 1" in impl:
+        return "memory allocated on behalf of client input is never released (LeakSanitizer, after all hostile peers are gone)"
     wi = [l for l in impl if l.startswith("#wit")]
     ws = [l for l in solo if l.startswith("#wit")]
     if wi != ws:
@@ -1275,9 +1350,18 @@ def classify_finding(script, cfg, impl, err):
     return None
 
 
+import threading as _threading
+_RETRY_LOCK = _threading.Lock()
+
+
 def run_one(ctx, h, d, script, cfg):
-    env = {"ASAN_OPTIONS": "detect_leaks=0:abort_on_error=0:allocator_may_return_null=1:max_allocation_size_mb=8192"}
+    env = {"ASAN_OPTIONS": "detect_leaks=1:abort_on_error=0:allocator_may_return_null=1:max_allocation_size_mb=8192"}
     rc, impl, err = ctx.run_lines(h, script, timeout=300, env=env)
+    if "HANG" in impl:
+        # the watchdog is the only real-time limit that can become a VIOLATION: confirm it by one
+        # serial retry with three times the limit (a loaded machine must not look like a wedged server)
+        with _RETRY_LOCK:
+            rc, impl, err = ctx.run_lines(h, script, timeout=900, env=dict(env, C04_WATCHDOG="135"))
     fail = None
     if rc != 0:
         kind = "crash"
